@@ -3,5 +3,6 @@
 
 pub mod arch;
 pub mod binfam;
+pub mod fsx;
 pub mod glue;
 pub mod lzfam;
